@@ -12,6 +12,7 @@ var (
 
 type channelWithContext[T any] struct {
 	channel chan T
+	done    chan struct{} // Closed when the channel is freed or the broadcaster is closed
 
 	ctx    context.Context
 	cancel func(cause error)
@@ -75,6 +76,7 @@ func (b *Broadcaster[T]) Receive(channel string, ctx context.Context) (func() (*
 		ctx, cancel := context.WithCancelCause(ctx)
 		c = channelWithContext[T]{
 			channel: make(chan T),
+			done:    make(chan struct{}),
 
 			ctx:    ctx,
 			cancel: cancel,
@@ -88,13 +90,14 @@ func (b *Broadcaster[T]) Receive(channel string, ctx context.Context) (func() (*
 	return func() (*T, error) {
 		verifYield("rcvf.select", channel)
 		select {
-		case v, ok := <-c.channel:
-			if !ok {
-				verifYield("rcvf.closed", channel)
-				return nil, ErrClosed
-			}
+		case v := <-c.channel:
 			verifYield("rcvf.value", channel)
 			return &v, nil
+
+		// We never close `c.channel` itself, since a concurrent `Publish` might still be sending on it
+		case <-c.done:
+			verifYield("rcvf.done", channel)
+			return nil, ErrClosed
 
 		case <-ctx.Done():
 			verifYield("rcvf.ctx", channel)
@@ -110,7 +113,7 @@ func (b *Broadcaster[T]) Free(channel string, err error) {
 	c, ok := b.channels[channel]
 	if ok {
 		c.cancel(err)
-		close(c.channel)
+		close(c.done)
 	}
 	delete(b.channels, channel)
 	b.lock.Unlock()
@@ -122,7 +125,7 @@ func (b *Broadcaster[T]) Close(err error) {
 	verifTrace("close.done", "")
 	for _, c := range b.channels {
 		c.cancel(err)
-		close(c.channel)
+		close(c.done)
 	}
 	b.channels = map[string]channelWithContext[T]{}
 	b.closed = true
